@@ -64,7 +64,7 @@ def in_domain(S):
         if S.get(key):
             for c in S[key]:
                 for t in S[key][c]:
-                    if t is not None and ("vals" in t or t.get("fam") not in ("cont", "lat") or "bad_at" in t or t.get("ints") or t.get("np")):
+                    if t is not None and ("vals" in t or t.get("fam") not in ("cont", "lat") or "bad_at" in t or t.get("ints") or t.get("np") or t.get("sdep")):
                         return False
     return True
 
